@@ -757,7 +757,7 @@ PROPS = {
         assumptions=["a thread's acquisitions are exactly the (held, acquired) pairs the translator can see: every pair occurring at run time is an instance of an edge of the table (soundness of the static analysis, see trusted base)",
                      "queue trees have bounded depth D (the theorem holds for every D)"],
         level_text="Lean 4 proofs. Generic: in the abstract lock machine (threads holding multisets of (instance, mode), sync.RWMutex blocking incl. writer preference, non re-entrant) any discipline that acquires in strictly increasing rank has no wait-for cycle, no deadlocked set and is never stuck, for any number of threads and locks (induction over reachable states); recursive RLock and re-locking are shown to BE deadlocks of the machine. "
-                   "Specific: a rank of the lock classes (Queue: child before parent) orders every edge of the lock-order table REGENERATED from the current source outside the documented exclusion list (decide over the table; no known lock-order finding is left since ba4338a removed the ClusterContext self edge), hence threads following the table never deadlock. "
+                   "Specific: a rank of the lock classes (Queue: child before parent) orders every edge of the lock-order table REGENERATED from the current source outside the documented exclusion list (decide over the table; no known lock-order finding is left since d47df11 removed the ClusterContext self edge), hence threads following the table never deadlock. "
                    "Data races, goroutine leaks and the final-state clause are NOT proved: replays and thorough-tier stress evidence only.",
         level_note="partial: proof for the lock-order / deadlock clause only, relative to the static analysis and the exclusion list; races, goroutine leaks and the settled-state clause are evidence only (replays, thorough tier)",
         technique="Lean 4 proof (generic rank theorem by induction + decide over a lock-order table regenerated from source by an SSA/call-graph translator) + replays on the real code; race detector / go-deadlock stress as evidence",
